@@ -3,8 +3,12 @@
 package sio
 
 import (
+	"bytes"
 	"context"
+	"log"
+	"os"
 	"strings"
+	"sync"
 	"time"
 
 	"github.com/Comcast/sheens/core"
@@ -17,34 +21,141 @@ const (
 	c17Long  = 400 * time.Millisecond
 )
 
-type c17Firing struct {
-	id string
-	at time.Time
+// c17ev: one observable event of a timers scenario, in the order in which they were observed: a make or
+// cancel request that returned (with its outcome), or a firing (the emitter was called).
+type c17ev struct {
+	kind string // "add", "rem", "fire"
+	id   string
+	ok   bool
+	due  time.Time // add: when the timer is due
+	at   time.Time
+}
+
+type c17log struct {
+	sync.Mutex
+	evs []c17ev
+}
+
+func (l *c17log) add(e c17ev) {
+	l.Lock()
+	e.at = time.Now().UTC()
+	l.evs = append(l.evs, e)
+	l.Unlock()
+}
+
+// c17inst: one accepted timer.
+type c17inst struct {
+	id               string
+	due              time.Time
+	fired, cancelled bool
+	inFlight         bool // replaced at or after its due time: it may or may not still fire
+}
+
+// c17Check replays the event log against the statement: every firing belongs to an accepted timer of that
+// id that was due, had not been cancelled and had not fired; a successful cancel removes the pending timer
+// of that id (the newest one: an older one may already have expired and be about to emit).  replaces: a
+// make request under a pending id replaces (cancels) the pending timer (sio) instead of being refused.
+// Returns the timers still pending at the end.
+func c17Check(evs []c17ev, replaces bool) []*c17inst {
+	var insts []*c17inst
+	newest := func(id string) *c17inst {
+		for i := len(insts) - 1; i >= 0; i-- {
+			if t := insts[i]; t.id == id && !t.fired && !t.cancelled && !t.inFlight {
+				return t
+			}
+		}
+		return nil
+	}
+	for _, e := range evs {
+		switch {
+		case e.kind == "add" && e.ok:
+			if replaces {
+				if old := newest(e.id); old != nil {
+					if old.due.After(e.at) {
+						old.cancelled = true // replaced while pending: never fires
+					} else {
+						old.inFlight = true // replaced at the moment it expired
+					}
+				}
+			}
+			insts = append(insts, &c17inst{id: e.id, due: e.due})
+		case e.kind == "rem" && e.ok:
+			t := newest(e.id)
+			verif.Assert("cancel-succeeds-only-for-a-pending-timer", t != nil)
+			if t != nil {
+				t.cancelled = true
+			}
+		case e.kind == "fire":
+			// a timer that is due and still pending first; else one that was replaced just as it expired
+			matched := false
+			for _, inFlight := range []bool{false, true} {
+				for _, t := range insts { // oldest first
+					if !matched && t.inFlight == inFlight && t.id == e.id && !t.fired && !t.cancelled && !e.at.Before(t.due) {
+						t.fired, matched = true, true
+					}
+				}
+			}
+			verif.Assert("each-firing-is-a-live-due-timer-firing-once", matched)
+		}
+	}
+	var pending []*c17inst
+	for _, t := range insts {
+		if !t.fired && !t.cancelled && !t.inFlight {
+			pending = append(pending, t)
+		}
+	}
+	return pending
+}
+
+// c17SlowLog: see cmd/mcrew's harness: natively the crew's own verbose log line between a timer's expiry
+// and its bookkeeping is sent through a slow writer, which widens that window for replays.
+type c17SlowLog struct{}
+
+func (c17SlowLog) Write(p []byte) (int, error) {
+	if bytes.Contains(p, []byte("Firing timer")) {
+		time.Sleep(4 * time.Millisecond)
+	}
+	return len(p), nil
 }
 
 // VerifC17Sio: the single-loop crew's timers: at most once, never early, cancel wins, an accepted timer
 // that is not cancelled fires, the id is free from the moment the timer fires (also for the handler), a
 // timer re-created by the handler stays in the map, the published map equals the pending timers.
 func VerifC17Sio() {
-	var fired []c17Firing
 	c := &Crew{Conf: &CrewConf{Id: "c17", Ctl: &core.Control{Limit: 10}}, Machines: map[string]*crew.Machine{},
 		changed: map[string]*Changed{}, previous: map[string]string{}}
+	if !verif.Symbolic() {
+		c.Verbose = true
+		log.SetOutput(c17SlowLog{})
+		defer log.SetOutput(os.Stderr)
+	}
+	lg := &c17log{}
 	ctx, cancel := context.WithCancel(context.Background())
 	defer cancel()
 	var ts *Timers
+	doAdd := func(id string, d time.Duration) error {
+		due := time.Now().UTC().Add(d)
+		err := ts.Add(ctx, id, id, d)
+		lg.add(c17ev{kind: "add", id: id, ok: err == nil, due: due})
+		return err
+	}
+	doCancel := func(id string) error {
+		err := ts.Cancel(ctx, id)
+		lg.add(c17ev{kind: "rem", id: id, ok: err == nil})
+		return err
+	}
 	handlerMode := verif.Choose("handler", 3)
 	handlerDone := false
-	var handlerDue time.Time
+	var handlerAddErr error
 	emitter := func(ctx context.Context, te *TimerEntry) {
-		fired = append(fired, c17Firing{id: te.Id, at: time.Now().UTC()})
+		lg.add(c17ev{kind: "fire", id: te.Id})
 		if te.Id == "t1" && !handlerDone {
 			handlerDone = true
-			handlerDue = time.Now().UTC().Add(c17Long)
 			switch handlerMode {
 			case 1: // the handler makes a new timer under the id that is firing
-				ts.Add(ctx, "t1", "again", c17Long)
+				handlerAddErr = doAdd("t1", c17Long)
 			case 2: // ... or under another id
-				ts.Add(ctx, "t2", "other", c17Long)
+				handlerAddErr = doAdd("t2", c17Long)
 			}
 		}
 	}
@@ -52,136 +163,60 @@ func VerifC17Sio() {
 	ts.c = c
 	c.timers = ts
 
-	type req struct {
-		add    bool
-		id     string
-		due    time.Time
-		at     time.Time
-		err    error
-		listed bool // (for Add) an entry for the id was pending when the request was made
-	}
-	var reqs []*req
 	nreq := 1 + verif.Choose("nreq", 3)
 	for i := 0; i < nreq; i++ {
 		tag := "req" + string(rune('0'+i))
-		r := &req{id: []string{"t1", "t2"}[verif.Choose(tag+".id", 2)]}
-		ts.Lock()
-		_, r.listed = ts.Map[r.id]
-		ts.Unlock()
+		id := []string{"t1", "t2"}[verif.Choose(tag+".id", 2)]
 		if i == 0 || verif.Choose(tag+".kind", 2) == 0 {
-			r.add = true
-			d := []time.Duration{c17Short, c17Long}[verif.Choose(tag+".delay", 2)]
-			r.due = time.Now().UTC().Add(d)
-			r.err = ts.Add(ctx, r.id, r.id, d)
+			verif.Assert("make-request-accepted", doAdd(id, []time.Duration{c17Short, c17Long}[verif.Choose(tag+".delay", 2)]) == nil)
 		} else {
-			r.err = ts.Cancel(ctx, r.id)
+			doCancel(id)
 		}
-		r.at = time.Now().UTC()
-		reqs = append(reqs, r)
-		if verif.Choose(tag+".pause", 2) == 1 {
+		if i == nreq-1 {
+			break // a pause after the last request only delays the end of the scenario
+		}
+		switch verif.Choose(tag+".pause", 3) {
+		case 1:
 			time.Sleep(100 * time.Millisecond)
+		case 2:
+			// exactly as long as a short timer takes: the next request lands at the very moment such a timer
+			// expires (the scheduler explores both orders of the tie)
+			time.Sleep(c17Short)
 		}
 	}
-	time.Sleep(200 * time.Millisecond)
+	// (170 ms: no sum of the pauses above plus this wait equals a due time, so the scenario never ends at the
+	// very moment a timer expires)
+	time.Sleep(170 * time.Millisecond)
 
-	// which timers are live at the end, by replaying the accepted requests: an Add replaces a pending timer
-	// of the same id (that one is cancelled), a Cancel removes it
-	type tm struct {
-		due    time.Time
-		since  time.Time
-		cancel time.Time
-		gone   bool
+	lg.Lock()
+	evs := append([]c17ev(nil), lg.evs...)
+	lg.Unlock()
+	pending := c17Check(evs, true)
+	now := time.Now().UTC()
+	for _, t := range pending {
+		verif.Assert("accepted-timer-fires", t.due.After(now.Add(-50*time.Millisecond)))
 	}
-	var all []*tm
-	live := map[string]*tm{}
-	for _, r := range reqs {
-		if r.add && r.err == nil {
-			if old := live[r.id]; old != nil && !old.gone {
-				old.gone, old.cancel = true, r.at
-			}
-			t := &tm{due: r.due, since: r.at}
-			live[r.id] = t
-			all = append(all, t)
-			_ = t
-		} else if !r.add && r.err == nil {
-			if old := live[r.id]; old != nil && !old.gone {
-				old.gone, old.cancel = true, r.at
-			}
+	if handlerDone && handlerMode != 0 {
+		verif.Assert("id-reusable-from-the-handler", handlerAddErr == nil)
+	}
+	// the published map lists exactly the pending timers, and each of them is still cancellable
+	want := map[string]bool{}
+	unsettled := map[string]bool{} // a timer of that id expires within 30 ms of now: natively it may be in flight
+	for _, t := range pending {
+		want[t.id] = true
+		if d := t.due.Sub(now); d < 30*time.Millisecond && d > -30*time.Millisecond {
+			unsettled[t.id] = true
 		}
-	}
-	count := map[string]int{}
-	for _, f := range fired {
-		count[f.id]++
-	}
-	// never early: every firing is at or after the due time of some accepted timer of that id
-	for _, f := range fired {
-		ok := false
-		for _, r := range reqs {
-			if r.add && r.err == nil && r.id == f.id && !f.at.Before(r.due) {
-				ok = true
-			}
-		}
-		if handlerDone && handlerMode != 0 && !f.at.Before(handlerDue) {
-			if (handlerMode == 1 && f.id == "t1") || (handlerMode == 2 && f.id == "t2") {
-				ok = true
-			}
-		}
-		verif.Assert("never-fires-early", ok)
-	}
-	// at most once per accepted timer
-	acc := map[string]int{}
-	for _, r := range reqs {
-		if r.add && r.err == nil {
-			acc[r.id]++
-		}
-	}
-	if handlerDone && handlerMode == 1 {
-		acc["t1"]++
-	}
-	if handlerDone && handlerMode == 2 {
-		acc["t2"]++
 	}
 	for _, id := range []string{"t1", "t2"} {
-		verif.Assert("fires-at-most-once-per-accepted-timer", count[id] <= acc[id])
+		ts.Lock()
+		_, listed := ts.Map[id]
+		ts.Unlock()
+		verif.Assert("map-equals-pending-timers", unsettled[id] || listed == want[id])
 	}
-	// an accepted short timer that nobody cancelled or replaced has fired by now (exactly once)
-	for i, r := range reqs {
-		if r.add && r.err == nil && r.due.Before(time.Now().UTC().Add(-50*time.Millisecond)) {
-			cancelled := false
-			for j, r2 := range reqs {
-				// a later request (in program order) for the same id, made before the timer was due
-				if j > i && r2.id == r.id && r2.err == nil && r2.at.Before(r.due) {
-					cancelled = true // cancelled or replaced before it was due
-				}
-			}
-			// the handler's own make request replaces a pending timer of that id as well
-			hid := ""
-			if handlerDone && handlerMode == 1 {
-				hid = "t1"
-			} else if handlerDone && handlerMode == 2 {
-				hid = "t2"
-			}
-			if hid == r.id && !handlerDue.Add(-c17Long).After(r.due) {
-				cancelled = true
-			}
-			if !cancelled {
-				verif.Assert("accepted-timer-fires", count[r.id] >= 1)
-			}
-		}
-	}
-	// the map lists exactly the pending timers: a re-created "t1" (by the handler) is still there
-	ts.Lock()
-	_, listed1 := ts.Map["t1"]
-	ts.Unlock()
-	if handlerDone && handlerMode == 1 && count["t1"] < acc["t1"] {
-		later := false
-		for _, r := range reqs {
-			if r.id == "t1" && r.at.After(handlerDue.Add(-c17Long)) {
-				later = true
-			}
-		}
-		if !later {
-			verif.Assert("recreated-timer-stays-listed", listed1)
+	for _, id := range []string{"t1", "t2"} {
+		if want[id] && !unsettled[id] {
+			verif.Assert("pending-timer-cancellable", ts.Cancel(ctx, id) == nil)
 		}
 	}
 	verif.Reach("end")
